@@ -63,6 +63,29 @@ Check =
     orders in both formats, labels, codes, payload_order and shape as a fresh cube on the same response given
     its OWN pristine deep copy of the transforms as written - for which legs (a) / (b) establish the property.
     Distribution keys `shared-transforms:*`.
+(e) the element with id 0 in the fixed lists, and falsy-looking references that name nothing (added after seeded
+    change C08-9: `_OrderSpec.top_fixed_ids` / `bottom_fixed_ids` were folded into a helper that drops the `None`
+    ids the element-id shim leaves for untranslatable references with `if id_`, so an element whose id is 0 was
+    dropped from the fixed lists too and sorted by value with the rest.  It was noticed only as a broken
+    source-text obligation: oracle (b) took the fixed ids from the implementation's own `_OrderSpec`, and no
+    stream fixed an element with id 0 on a dimension whose ids are not translated to aliases).  "Any fixed
+    top/bottom lists": 0 is an element id like any other - a category coded 0, and the first element of every
+    text / numeric / binned / datetime dimension (element ids are the positions 0..n-1).  Added: oracle (b) now
+    decides WHICH elements the lists name from the caller's transform and the raw response on every
+    categorical / text / numeric / datetime dimension (`raw_fixed_idxs`: the id itself with Python equality, on
+    datetime dimensions the value, given directly or by element id as number / numeric string; array dimensions
+    keep the implementation's translated ids, C19's); a stream of its own (`gen_zero_id_cases`): pairs of cases
+    on one response with the element 0 fixed on top / at the bottom (so that in one of them its value would not
+    sort it there - counted in `fixed-id-0:element-0-fixed-at-*`), spelled 0, 0.0 and "0", alone or beside other
+    fixed elements, on categoricals with a valid category 0 (0-based scale, 0/1 flag, 0 among other codes;
+    also cat-date), text, numeric, binned and datetime dimensions and on categoricals WITHOUT a category 0,
+    as rows, columns and strands, every sort type of the place in turn, both directions, opposing dimension
+    CAT / CAT_DATE / MR / text / binned, subtotals, hides (also of element 0) and prune; falsy-looking
+    references that name nothing there ("", and 0 / 0.0 / "0" where no element has id 0; "0" on every
+    non-datetime dimension) are mixed into the lists and must leave no trace: relational leg
+    `nameless_refs_leg` (the partition equals the one of the same transforms without them), besides oracle (b)
+    and the model correspondence (a), which reads an integral float in a fixed list as the int it equals.
+    Distribution keys `fixed-id-0:*`, `leg-e:*`, `fixed-lists-read-from:*`.
 """
 import copy
 import json
@@ -566,6 +589,347 @@ def gen_stale_ref_case(rng, k, tables, kw_cycle, slots=("key", "fixed", "hide"),
     return case
 
 
+# ---- stream (e): the element with id 0 in the fixed lists, falsy-looking stale references -----------
+#
+# "Fixed-top and fixed-bottom elements bracket them in their listed order ... any fixed top/bottom lists":
+# which element a reference of the list names is a matter of its id alone, and 0 is an id like any other - a
+# category coded 0 (0-based scales, 0/1 flags), and the FIRST element of every text / numeric / binned /
+# datetime dimension, whose element ids are the positions 0..n-1.  References that name nothing ("", and -
+# where no element has id 0 - 0, 0.0, "0") are ignored like every other stale reference.
+
+ZERO_SORTED_KINDS = ("cat0", "cat0", "cat0", "cat_date0", "text", "text", "numeric", "binned", "datetime",
+                     "cat-without-0", "cat-without-0")
+ZERO_OPP_KINDS = ("cat", "cat", "cat0", "cat_date", "mr", "text", "binned")
+ENUM_KINDS = ("text", "numeric", "binned", "datetime")
+ZERO_VARYING_KEYWORDS = {"matrix": ("count_weighted", "count_unweighted", "col_percent", "row_percent",
+                                    "table_percent", "z_score", "col_index"),
+                         "strand": ("count_weighted", "count_unweighted", "percent", "percent_moe")}
+
+
+def make_zero_var(rng, alias, kind):
+    """a variable of the (e) stream: kind 'cat0' / 'cat_date0' = categorical with a VALID category of id 0
+    (0-based scale, 0/1 flag, or 0 anywhere among other codes), text / numeric / binned / datetime = enum
+    dimension (element ids are the positions, from 0), 'cat-without-0' = categorical, no category has id 0;
+    anything else: the variables of the other streams"""
+    if kind in ("cat0", "cat_date0", "cat-without-0"):
+        n_valid = rng.randint(2, 6)
+        style = rng.choice(["scale", "scale", "flag", "anywhere"])
+        if kind == "cat-without-0":
+            valid = rng.sample(range(1, 3 * n_valid + 2), n_valid)
+        elif style == "scale":
+            valid = list(range(n_valid))
+        elif style == "flag":
+            valid = rng.choice([[0, 1], [1, 0]])
+        else:
+            valid = [0] + rng.sample(range(1, 3 * n_valid), n_valid - 1)
+            rng.shuffle(valid)
+        missing = rng.choice([[], [-1], [-1], [99], [98, 99]])
+        v = gen.make_cat(rng, alias, n_valid=len(valid), n_missing=len(missing), date=kind == "cat_date0",
+                         ids=valid + missing, missing_anywhere=False)
+        if missing and rng.random() < 0.4:          # missing categories anywhere in the payload
+            rng.shuffle(v.cats)
+        return v
+    if kind in ENUM_KINDS:
+        v = gen.make_enum(rng, alias, "binned" if kind == "numeric" else kind, n_valid=rng.randint(2, 6))
+        if kind == "numeric":                        # plain values instead of bin boundaries
+            for e in v.elements:
+                if not e["missing"]:
+                    e["value"] = e["value"][0] + 5
+        return v
+    return cc.make_var(rng, kind, alias)
+
+
+def zero_role(v):
+    return "items" if v.kind == "mr" else "elements"
+
+
+def zero_dim_ids(v, role):
+    if role == "elements" and hasattr(v, "elements"):
+        return [e["id"] for e in v.elements if not e["missing"]]
+    return dim_ids(v, role)
+
+
+def zero_order(rng, place, typ, opp, opp_tdim, tables, numeric):
+    """a sort-by-value order of type `typ` with a key that can (mostly) be resolved, no fixed lists yet"""
+    o = {"type": typ}
+    which = "strand" if typ == "univariate_measure" else "matrix"
+    if typ in ("univariate_measure", "opposing_element", "opposing_insertion"):
+        # mostly keywords whose value differs from element to element (a base is often the same for all)
+        varying = [kw for kw in ZERO_VARYING_KEYWORDS[which] if kw in tables.keywords(which)]
+        o["measure"] = rng.choice(varying) if varying and not numeric and rng.random() < 0.65 \
+            else seq_keyword(rng, tables, which, numeric)
+    elif typ == "marginal":
+        o["marginal"] = seq_keyword(rng, tables, "marginal", False)
+    if typ == "opposing_element":
+        ids = zero_dim_ids(opp, zero_role(opp))
+        o["element_id"] = rng.choice(ids) if ids and rng.random() < 0.95 else 999
+    if typ == "opposing_insertion":
+        o["insertion_id"] = rng.choice(ins_id_candidates(opp, opp_tdim))
+    d = rng.random()
+    if d < 0.85:
+        o["direction"] = "ascending" if d < 0.45 else "descending"
+    return o
+
+
+def zero_fixed_lists(rng, end, own_ids, spell):
+    """fixed lists that name the element with id 0 at `end` (when the dimension has one), other elements
+    beside it or at the other end, and falsy-looking references that name nothing"""
+    others = [i for i in own_ids if i != 0]
+    rng.shuffle(others)
+    has_zero = 0 in own_ids
+    mine, other = [], []
+    if has_zero:
+        mine = [spell]
+        if others and rng.random() < 0.4:
+            mine.insert(rng.randint(0, 1), others.pop())
+    elif others:
+        mine = [others.pop()]
+    if others and rng.random() < 0.35:
+        other = [others.pop()]
+    stale = []
+    if rng.random() < (0.45 if has_zero else 1.0):
+        # on a dimension with an element 0 the number 0 in any spelling is not stale ("0" is, except on a
+        # datetime dimension - the oracle decides from the raw response)
+        pool = ["", "", "0"] if has_zero else [0, 0, "0", "", 0.0]
+        for _ in range(rng.choice([1, 1, 2])):
+            x = rng.choice(pool)
+            l = rng.choice([mine, mine, other])
+            l.insert(rng.randint(0, len(l)), x)
+            stale.append(x)
+    fixed = {end: mine}
+    other_end = "bottom" if end == "top" else "top"
+    if other or rng.random() < 0.3:
+        fixed[other_end] = other
+    return fixed, stale
+
+
+def gen_zero_id_cases(rng, k, tables, n):
+    """separate stream (after seeded change C08-9) -> TWO cases on one response: the element with id 0 of
+    the sorted dimension fixed on top in one and at the bottom in the other, so that in at least one of
+    them its value would not have sorted it there (two or more displayed elements with different values)."""
+    strand = rng.random() < 0.3
+    skind = ZERO_SORTED_KINDS[n % len(ZERO_SORTED_KINDS)]
+    place = "strand" if strand else "rows" if rng.random() < 0.55 else "columns"
+    # every sort type of the place in turn, for every kind of sorted dimension
+    typ = VALUE_TYPES[place][(n // len(ZERO_SORTED_KINDS)) % len(VALUE_TYPES[place])]
+    if strand:
+        variables = [make_zero_var(rng, "rowv", skind)]
+    else:
+        okind = rng.choice(ZERO_OPP_KINDS[:4] if typ == "opposing_insertion" else ZERO_OPP_KINDS)
+        sv_, ov_ = (make_zero_var(rng, "rowv", skind), make_zero_var(rng, "colv", okind)) if place == "rows" \
+            else (make_zero_var(rng, "colv", skind), make_zero_var(rng, "rowv", okind))
+        variables = [sv_, ov_] if place == "rows" else [ov_, sv_]
+    keys = ["rows_dimension"] if strand else ["rows_dimension", "columns_dimension"]
+    n_sorted = 1 if place == "columns" else 0
+    transforms = {}
+    for j, (v, key) in enumerate(zip(variables, keys)):
+        wanted = typ == "opposing_insertion" and j != n_sorted      # the key of the sort is one of them
+        if v.kind in ("cat", "cat_date") and (wanted or rng.random() < 0.6):
+            ins = gen.random_insertions(rng, v)
+            for _ in range(8):
+                if ins or not wanted:
+                    break
+                ins = gen.random_insertions(rng, v)
+            if rng.random() < 0.6:
+                v.view_insertions = ins
+            else:
+                transforms.setdefault(key, {})["insertions"] = ins
+    numeric = rng.random() < 0.3
+    sv = gen.Survey(variables, rng.choice([10, 20, 40, 60]), rng, numvars=["x"] if numeric else [])
+    resp = gen.cube_response(sv, [v.alias for v in variables],
+                             measures=("count", "mean", "sum", "stddev") if numeric else ("count",),
+                             numvar="x" if numeric else None)
+    own = variables[n_sorted]
+    own_ids = zero_dim_ids(own, zero_role(own))
+    opp = None if strand else variables[1 - n_sorted]
+    opp_tdim = None if strand else transforms.get(keys[1 - n_sorted])
+    tdim = transforms.setdefault(keys[n_sorted], {})
+    order = zero_order(rng, place, typ, opp, opp_tdim, tables, numeric)
+    # hides / prune: mostly on other elements, sometimes on the element 0 itself
+    if rng.random() < 0.25:
+        hide = [i for i in own_ids if (i != 0 and rng.random() < 0.3) or (i == 0 and rng.random() < 0.1)]
+        if hide:
+            tdim["elements"] = {str(i): {"hide": True} for i in hide}
+    if rng.random() < 0.2:
+        tdim["prune"] = True
+    spell = rng.choice([0, 0, 0, 0, 0.0, "0"])
+    population = 1000 if "population" in str(order.get("measure")) else None
+    out = []
+    for j, end in enumerate(("top", "bottom")):
+        t = copy.deepcopy(transforms)
+        fixed, stale = zero_fixed_lists(rng, end, own_ids, spell)
+        t[keys[n_sorted]]["order"] = dict(copy.deepcopy(order), fixed=fixed)
+        out.append({"k": k + j, "response": resp, "transforms": t, "strand": strand, "population": population,
+                    "kinds": [v.kind for v in variables], "malformed": False,
+                    "zero_ids": {"dim": skind, "key": keys[n_sorted], "end": end,
+                                 "spelled": type(spell).__name__ if 0 in own_ids else None,
+                                 "stale": [repr(x) for x in stale]}})
+    return out
+
+
+def plain_dim_refs(dim_dict):
+    """how the references of an order transform name the elements of a dimension that is NOT an array, from
+    the raw response alone -> (names of the valid elements in payload order, reference -> name) or None.
+    Categorical, text, numeric / binned: the element id itself (Python equality: 0.0 names element 0, "0"
+    does not).  Datetime: the element's value, which a reference gives directly or by the element's id as a
+    number or numeric string."""
+    t = dim_dict.get("type") or {}
+    if t.get("class") == "categorical":
+        return [e["id"] for e in ou.element_defs(dim_dict) if not e.get("missing")], (lambda x: x)
+    sub = (t.get("subtype") or {}).get("class")
+    if t.get("class") != "enum" or sub not in ("text", "numeric", "datetime"):
+        return None
+    defs = ou.element_defs(dim_dict)
+    if sub != "datetime":
+        return [e["id"] for e in defs if not e.get("missing")], (lambda x: x)
+    by_id = [(e["id"], e["value"]) for e in defs if not isinstance(e.get("value"), dict)]
+
+    def name(x):
+        i = int(x) if isinstance(x, str) and x.isnumeric() else x
+        for id_, value in by_id:
+            if not isinstance(i, (list, dict)) and id_ == i:
+                return value
+        return x
+
+    return [e["value"] for e in defs if not e.get("missing")], name
+
+
+def raw_fixed_idxs(dim_dict, order_dict, end):
+    """payload idxs (among the valid elements) of the elements the caller's fixed.<end> list names, in
+    listed order, references that name nothing dropped; None when not decidable from the raw response"""
+    refs = plain_dim_refs(dim_dict)
+    fixed = order_dict.get("fixed") if isinstance(order_dict, dict) else None
+    if refs is None or not isinstance(fixed or {}, dict):
+        return None
+    names, name_of = refs
+    l = (fixed or {}).get(end) or []
+    if not isinstance(l, (list, tuple)) or any(isinstance(x, (list, dict, bool)) for x in l):
+        return None
+    out = []
+    for x in l:
+        nm = name_of(x)
+        if nm in names:
+            out.append(names.index(nm))
+    return out
+
+
+def is_datetime_dim(idim):
+    dt = idim.dimension_type
+    return getattr(dt, "name", str(dt).split(".")[-1]) == "DATETIME"
+
+
+def sorts_before(a, b, desc):
+    """value a is placed strictly before value b by the requested sort (NaN last)"""
+    if is_nan(a):
+        return False
+    if is_nan(b):
+        return True
+    try:
+        return a > b if desc else a < b
+    except TypeError:
+        return False
+
+
+def zero_id_coverage(rep, case, v, exp, order):
+    """evidence distribution of stream (e) for one sorted dimension with a resolvable key"""
+    z = case["zero_ids"]
+    if v.key != z.get("key"):
+        return
+    rep.dist("fixed-id-0:dimension:%s" % z["dim"])
+    rep.dist("fixed-id-0:%s@%s" % (v.typ, v.place))
+    rep.dist("fixed-id-0:fixed-lists-read-from:" + getattr(v, "fixed_from", "?"))
+    if z.get("spelled") is None:
+        rep.dist("fixed-id-0:no-element-0(falsy references are stale)")
+        return
+    rep.dist("fixed-id-0:end:%s" % z["end"])
+    rep.dist("fixed-id-0:spelled-as:%s" % z["spelled"])
+    refs = plain_dim_refs(v.raw_dim) if v.raw_dim is not None else None
+    if refs is None or exp[0] != "sorted":
+        return
+    names, name_of = refs
+    spelled = {"int": 0, "float": 0.0, "str": "0"}[z["spelled"]]
+    if name_of(spelled) not in names:
+        rep.dist("fixed-id-0:spelling-names-nothing-here(\"0\" on a non-datetime dimension)")
+        return
+    zi = names.index(name_of(spelled))
+    shown = [i for i in order if i >= 0]
+    fixed = set(getattr(v, "fixed_top_idxs", [])) | set(getattr(v, "fixed_bottom_idxs", []))
+    if zi not in shown or zi not in fixed:
+        rep.dist("fixed-id-0:element-0-not-displayed")
+        return
+    body = [i for i in shown if i not in fixed]
+    vals = exp[1]
+    if z["end"] == "top":
+        away = any(sorts_before(vals[i], vals[zi], v.desc) for i in body)
+    else:
+        away = any(sorts_before(vals[zi], vals[i], v.desc) for i in body)
+    rep.dist("fixed-id-0:element-0-fixed-at-%s:%s" % (
+        z["end"], "its-value-would-NOT-sort-it-there" if away else "its-value-sorts-it-there-anyway"))
+
+
+def model_order_dict(m):
+    """the order dict the model is given: on a non-array dimension a float of integral value in a fixed list
+    is read as the int it equals (ids are compared with ==; the model's identifiers are int | str | null)"""
+    od = m.order_dict
+    fixed = od.get("fixed") if isinstance(od, dict) else None
+    if m.array or not isinstance(fixed, dict):
+        return od
+
+    def f(l):
+        return [int(x) if isinstance(x, float) and x.is_integer() else x for x in l] \
+            if isinstance(l, list) else l
+
+    return dict(od, fixed={k: f(l) for k, l in fixed.items()})
+
+
+def drop_nameless_fixed_refs(case):
+    """-> (transforms without the fixed-list references that name no element of their non-array dimension,
+    [(key, end, reference)])"""
+    t2 = copy.deepcopy(case["transforms"])
+    dropped = []
+    try:
+        dds = ou.displayed_dim_dicts(case["response"])
+    except (KeyError, TypeError, AttributeError):
+        return t2, dropped
+    keys = ["rows_dimension"] if case["strand"] else ["rows_dimension", "columns_dimension"]
+    dds = dds[-len(keys):]
+    for key, dd in zip(keys, dds):
+        od = (t2.get(key) or {}).get("order")
+        refs = plain_dim_refs(dd)
+        if refs is None or not isinstance(od, dict) or not isinstance(od.get("fixed"), dict):
+            continue
+        names, name_of = refs
+        for end in ("top", "bottom"):
+            l = od["fixed"].get(end)
+            if not isinstance(l, list) or any(isinstance(x, (list, dict, bool)) for x in l):
+                continue
+            keep = [x for x in l if name_of(x) in names]
+            dropped += [(key, end, x) for x in l if name_of(x) not in names]
+            od["fixed"][end] = keep
+    return t2, dropped
+
+
+def nameless_refs_leg(case, rep):
+    """(e) a reference in a fixed list that names no element of a categorical / text / numeric / datetime
+    dimension - falsy-looking ones included - leaves no trace: the partition equals the one of the same
+    transforms without it (relational)."""
+    t2, dropped = drop_nameless_fixed_refs(case)
+    if not dropped:
+        return
+    rep.dist("leg-e:cases-with-nameless-fixed-references")
+    for _, _, x in dropped:
+        rep.dist("leg-e:nameless-fixed-reference:%s" % (
+            repr(x) if x in ("", "0") or (not isinstance(x, str) and x == 0) else type(x).__name__))
+    a, b = observe_run(case, case["transforms"]), observe_run(case, t2)
+    if a != b:
+        diff = sorted(k for k in set(a) | set(b) if a.get(k) != b.get(k))
+        rep.violation("oracle:nameless-reference-not-ignored", _replayable(case),
+                      {"what": "nameless-reference-not-ignored", "nameless_references": dropped, "differs": diff,
+                       "with": {k: a.get(k) for k in diff[:4]}, "without": {k: b.get(k) for k in diff[:4]},
+                       "transforms_without": t2},
+                      {"what": "nameless-reference-not-ignored", "group": "fixed"})
+
+
 # ------------------------------------------------------------------------------------
 # reading the implementation
 # ------------------------------------------------------------------------------------
@@ -735,6 +1099,10 @@ def prepare(case, tables):
     nr, nrs, nc, ncs = info
     keys = ["rows_dimension"] if strand else ["rows_dimension", "columns_dimension"]
     raw_facts = array_facts_by_key(resp, strand)
+    try:
+        raw_dims = ou.displayed_dim_dicts(resp)[-len(keys):]
+    except (KeyError, TypeError, AttributeError):
+        raw_dims = []
     views, terms = [], []
     # difference flags of the subtotals of each dimension (raw dicts); they must be as many as the
     # subtotals the implementation reports
@@ -758,6 +1126,7 @@ def prepare(case, tables):
         v.n, v.nsub = (nr, nrs) if k == 0 else (nc, ncs)
         v.desc = od_raw.get("direction", "descending") != "ascending"
         v.idim = idims[k]
+        v.raw_dim = raw_dims[k] if len(raw_dims) == len(keys) else None
         v.is_value = v.typ in VALUE_TYPES[v.place]
         # the order of the same run without this order transform
         pr = impl.guarded(lambda: impl.partition(resp, without_order(tr, key), population=pop))
@@ -839,7 +1208,7 @@ def prepare(case, tables):
             oreq = "(mkOrd %s %s %s %s %s %s [])" % (
                 g_str_opt(od_raw, "type"), g_str_opt(od_raw, "measure"), g_str_opt(od_raw, "marginal"),
                 g_ident_opt(el_present, el_val), g_ident_opt(in_present, in_val),
-                ou.g_sortspec(v.m.order_dict))
+                ou.g_sortspec(model_order_dict(v.m)))
         except (ou.Unsupported, AssertionError) as e:
             return ("skip", "unsupported:%s" % e)
         src = v.m.source_list() if not v.m.array else []
@@ -1010,8 +1379,23 @@ def oracle(v, obs, strand):
 
     # an element named more than once counts where it is first mentioned: once inside a list, and an
     # element of the top list is ignored in the bottom list
-    top_all = first_mentions(listed(spec.top_fixed_ids))
-    bot_all = first_mentions(listed(spec.bottom_fixed_ids), top_all)
+    # WHICH elements the lists name: on categorical / text / numeric / datetime dimensions read from the
+    # caller's transform and the raw response (leg (e): the implementation's own parsed lists are what is
+    # being checked there); on array dimensions the translated ids are the implementation's (C19's)
+    raw_top = raw_bot = None
+    if v.raw_dim is not None and not (v.m.array and not is_datetime_dim(v.idim)):
+        raw_top, raw_bot = raw_fixed_idxs(v.raw_dim, v.od, "top"), raw_fixed_idxs(v.raw_dim, v.od, "bottom")
+        refs = plain_dim_refs(v.raw_dim)
+        if refs is None or len(refs[0]) != v.n:
+            raw_top = raw_bot = None
+    v.fixed_from = "raw-transform" if raw_top is not None and raw_bot is not None else "implementation"
+    if v.fixed_from == "raw-transform":
+        top_all = first_mentions(raw_top)
+        bot_all = first_mentions(raw_bot, top_all)
+    else:
+        top_all = first_mentions(listed(spec.top_fixed_ids))
+        bot_all = first_mentions(listed(spec.bottom_fixed_ids), top_all)
+    v.fixed_top_idxs, v.fixed_bottom_idxs = top_all, bot_all
     top = [i for i in top_all if i in shown]
     bot = [i for i in bot_all if i in shown]
     if core_[:len(top)] != top or (bot and core_[len(core_) - len(bot):] != bot):
@@ -1105,7 +1489,7 @@ def compare_model(v, dec, obs, exp):
 
 def _replayable(case):
     return {k: case.get(k) for k in ("response", "transforms", "strand", "population", "k", "kinds",
-                                     "repeats", "population_difference", "stale_refs")}
+                                     "repeats", "population_difference", "stale_refs", "zero_ids")}
 
 
 def observe_run(case, transforms):
@@ -1186,6 +1570,9 @@ def run_cases(rep, cases, tables):
             rep.dist("stream:stale-array-references")
             rep.dist("stream:stale-array-references:" + case["stale_refs"])
         unmatched_refs_leg(case, rep, tables, isinstance(p, dict))
+        if case.get("zero_ids"):
+            rep.dist("stream:fixed-id-0-and-falsy-references")
+            nameless_refs_leg(case, rep)
         if not isinstance(p, dict):
             rep.count_case(rc, bool(case.get("stale_refs")))
             rep.dist("skipped:" + p[1].split(":")[0])
@@ -1247,6 +1634,7 @@ def run_cases(rep, cases, tables):
                         rep.dist("population:key-at-opposing-difference")
                 if v.od.get("fixed"):
                     rep.dist("with-fixed-lists")
+                    rep.dist("fixed-lists-read-from:" + getattr(v, "fixed_from", "?"))
                     fx = [str(x) for x in (v.od["fixed"].get("top") or []) + (v.od["fixed"].get("bottom") or [])]
                     if len(set(fx)) != len(fx):
                         rep.dist("with-repeated-fixed-ids")
@@ -1256,6 +1644,9 @@ def run_cases(rep, cases, tables):
                     rep.dist("with-hidden-elements")
                 if v.m.array:
                     rep.dist("sorted-dimension-is-array")
+            if case.get("zero_ids") and exp[0] in ("sorted", "payload"):
+                got_o = p["obs"][v.axis + "_order"]
+                zero_id_coverage(rep, case, v, exp, got_o[1] if got_o[0] == "ok" else [])
             for what, detail, grp in ofails:
                 rep.violation("oracle:" + what, rc,
                               dict(detail, what=what, axis=v.axis, order_transform=v.od,
@@ -1312,10 +1703,12 @@ def seq_sort_transforms(rng, cubes, idx, tables, stats):
     else:
         typ = rng.choice(["opposing_element"] * 4 + ["label", "label", "opposing_insertion"])
     o = {"type": typ}
-    if typ == "univariate_measure":
-        o["measure"] = seq_keyword(rng, tables, "strand", numeric)
-    elif typ in ("opposing_element", "opposing_insertion"):
-        o["measure"] = seq_keyword(rng, tables, "matrix", numeric)
+    which = "strand" if typ == "univariate_measure" else "matrix"
+    if typ in ("univariate_measure", "opposing_element", "opposing_insertion"):
+        # mostly keywords whose value differs from element to element (a base is often the same for all)
+        varying = [kw for kw in ZERO_VARYING_KEYWORDS[which] if kw in tables.keywords(which)]
+        o["measure"] = rng.choice(varying) if varying and not numeric and rng.random() < 0.65 \
+            else seq_keyword(rng, tables, which, numeric)
     elif typ == "marginal":
         o["marginal"] = seq_keyword(rng, tables, "marginal", False)
     if typ == "opposing_element":
@@ -1525,6 +1918,11 @@ def run(tier, seed):
                                  ("key",) if 5 * k < 2 * n_sr else ("key", "fixed") if 10 * k < 7 * n_sr
                                  else ("key", "fixed", "hide"))
               for k in range(n_sr)]
+    # leg (e): the element with id 0 in the fixed lists (pairs: fixed on top / at the bottom of one response)
+    rng_z = random.Random("C08-fixed-id-0-%s" % seed)
+    n_zero = 110 if tier == "quick" else 1100
+    for n in range(n_zero):
+        cases += gen_zero_id_cases(rng_z, len(cases), tables, n)
     coq_s, n_terms = run_cases(rep, cases, tables)
     s2, n2 = run_scope(rep, rng, 600 if tier == "quick" else 7500)
     coq_s, n_terms = coq_s + s2, n_terms + n2
@@ -1557,6 +1955,16 @@ def run(tier, seed):
         "(numeric array alone or by CAT on ~12%) whose sort key (first 40%), fixed top / bottom lists (next 30%) "
         "and hide keys (rest) name references that match nothing - negative ints / numeric strings in -n..-1 and "
         "below -n, numbers >= n, non-numeric strings (distribution keys leg-c:*); leg (c) runs on every case; "
+        "+ leg (e) (fixed-id-0:* / leg-e:* keys, own generator state): N_ZERO pairs of cases (one response; the "
+        "element with id 0 of the sorted dimension fixed on top in one, at the bottom in the other, spelled 0 4 : "
+        "0.0 1 : '0' 1, alone or beside another fixed element 40%, another element at the other end 35%), sorted "
+        "dimension cycling through categorical with a valid category 0 (0-based scale / 0-1 flag / 0 among other "
+        "codes; 3 : cat-date 1), text 2, numeric 1, binned 1, datetime 1, categorical without category 0 2; strand "
+        "30% else rows 55% / columns 45% against CAT / CAT_DATE / MR / text / binned, 2..6 valid elements, 10..60 "
+        "respondents, sort type cycling through every type of the place, count keywords (65% counts / percentages / "
+        "z-score / index; 'mean' with numeric measures 30%), direction ascending 45% / descending 40% / absent, subtotals on 60% of the categorical "
+        "dimensions, hides 25% (element 0 itself 10% of them), prune 20%, falsy-looking references that name "
+        "nothing ('' / '0', and 0 / 0.0 where there is no element 0) in 45% (100% without element 0) of the lists; "
         "+ small scope on SortByValueCollator.display_order itself: "
         "value patterns {NaN,-inf,0,1,+inf}^4 x direction x 6 fixed configurations, two of them with repeated "
         "ids (subtotal values, hidden "
@@ -1574,7 +1982,8 @@ def run(tier, seed):
         "25%, transforms insertions 30%; read interleaved 55%, all built first 18%, reversed 9%, as the cubes of "
         "a CubeSet 18%; every sequence is run a second time with a pristine deep copy per cube (reference); "
         "non-trivial there = a fixed-list id reference names an item in two cubes with other aliases, or a sorted "
-        "axis of the reference run is not in payload order").replace("N_SEQ", str(n_seq))
+        "axis of the reference run is not in payload order").replace("N_SEQ", str(n_seq)).replace(
+            "N_ZERO", str(n_zero))
     rep.cov["coq_eval_seconds"] = round(coq_s, 2)
     rep.cov["model_terms_evaluated"] = n_terms
     rep.assumptions = [
@@ -1593,7 +2002,11 @@ def run(tier, seed):
         "order transforms whose keyword field is absent (KeyError) or names a member of MEASURE that has "
         "no sort entry (NotImplementedError) are outside the property text: only the correspondence with "
         "the model (same exception class) is checked",
-        "ids that are floats / bools are not generated",
+        "which elements a fixed list names is decided from the caller's transform and the raw response on "
+        "categorical / text / numeric / datetime dimensions (leg (e)); on array dimensions from the implementation's "
+        "translated ids",
+        "ids that are bools or non-integral floats are not generated; an integral float in a fixed list of a "
+        "non-array dimension is given to the model as the int it equals",
     ]
     return rep.finish("proof", ob, trusted_base=core.TRUSTED_BASE_COMMON + [
         "Model/Collator.v (SortByValueCollator) and Model/SortKeys.v (order helpers) are hand-written; the "
